@@ -99,6 +99,7 @@ type Exec struct {
 	bufInputs     []BufInput
 	lastPanic     string
 	pending       []pendingPanic
+	ufApps        map[string][][2]*smt.Term
 	watchOff      bool
 	Shared        *Shared
 	endWhy        string
